@@ -19,7 +19,7 @@ out = {
     "how_verified_by_author": meta.get("how_verified"),
     "confirmed_by_me": "scripts/confirm_seed.sh in a scratch worktree of /repo HEAD: patch applies, builds, the repository suite (both modules) passes with it, demo/run.sh exits non-zero with the patch and 0 without",
     "check_result": det,
-    "what_i_ran": f"scripts/try_seed.sh {dst} {prop} (git -C /repo apply; bin/vcheck {prop} --tier quick; git -C /repo checkout -- .)",
+    "what_i_ran": f"scripts/try_seed_wt.sh {dst} {prop} (scratch worktree of /repo HEAD with the patch applied, VERIF_REPO pointing at it; bin/vcheck {prop} --tier quick; worktree removed)",
 }
 json.dump(out, open(f"{dst}/meta.json", "w"), indent=1)
 print("kept", dst)
